@@ -37,6 +37,12 @@ pub enum Entry {
     History { custom: bool, ops: Vec<SinkOp> },
     /// `write!(sink, "{}", value)` through a `fmt::Write` sink.
     Display,
+    /// `serde_lexpr::to_writer` of a `Serialize` view of the value (the Serde
+    /// front end is `to_value` + `lexpr::to_writer`; its reference text is what
+    /// `serde_lexpr::to_vec` gives for the same view).
+    SerdeToWriter,
+    /// `serde_lexpr::to_writer_custom`.
+    SerdeToWriterCustom,
 }
 
 impl Entry {
@@ -48,7 +54,12 @@ impl Entry {
             Entry::PrinterWithOptions => "Printer::with_options",
             Entry::History { .. } => "printer-history",
             Entry::Display => "Display",
+            Entry::SerdeToWriter => "serde_lexpr::to_writer",
+            Entry::SerdeToWriterCustom => "serde_lexpr::to_writer_custom",
         }
+    }
+    fn is_serde(&self) -> bool {
+        matches!(self, Entry::SerdeToWriter | Entry::SerdeToWriterCustom)
     }
     fn default_formatter(&self) -> bool {
         match self {
@@ -79,6 +90,74 @@ impl io::Write for SharedWriter {
     }
     fn flush(&mut self) -> io::Result<()> {
         self.0.borrow_mut().flush()
+    }
+}
+
+/// A `Serialize` view of a lexpr value for the Serde front end: the data model
+/// counterpart of each variant (symbols and keywords go as strings, a dotted
+/// tail as one more element).
+#[cfg(feature = "serde-client")]
+struct Ser<'a>(&'a Value);
+
+#[cfg(feature = "serde-client")]
+impl serde::Serialize for Ser<'_> {
+    fn serialize<S: serde::Serializer>(&self, s: S) -> Result<S::Ok, S::Error> {
+        use serde::ser::SerializeSeq;
+        match self.0 {
+            Value::Nil | Value::Null => s.serialize_unit(),
+            Value::Bool(b) => s.serialize_bool(*b),
+            Value::Number(n) => {
+                if let Some(u) = n.as_u64() {
+                    s.serialize_u64(u)
+                } else if let Some(i) = n.as_i64() {
+                    s.serialize_i64(i)
+                } else {
+                    s.serialize_f64(n.as_f64().unwrap_or(0.0))
+                }
+            }
+            Value::Char(c) => s.serialize_char(*c),
+            Value::String(x) => s.serialize_str(x),
+            Value::Symbol(x) => s.serialize_str(x),
+            Value::Keyword(x) => s.serialize_str(x),
+            Value::Bytes(b) => s.serialize_bytes(b),
+            Value::Cons(c) => {
+                let mut seq = s.serialize_seq(None)?;
+                let mut cur = c;
+                loop {
+                    seq.serialize_element(&Ser(cur.car()))?;
+                    match cur.cdr() {
+                        Value::Cons(next) => cur = next,
+                        Value::Null => break,
+                        tail => {
+                            seq.serialize_element(&Ser(tail))?;
+                            break;
+                        }
+                    }
+                }
+                seq.end()
+            }
+            Value::Vector(items) => {
+                let mut seq = s.serialize_seq(Some(items.len()))?;
+                for it in items.iter() {
+                    seq.serialize_element(&Ser(it))?;
+                }
+                seq.end()
+            }
+        }
+    }
+}
+
+/// Reference text of a single-value entry point; `None` when the Serde front
+/// end cannot represent the value at all (nothing is written then either).
+fn reference_for(entry: &Entry, v: &Value, popts: PrintOptions) -> Option<Vec<u8>> {
+    match entry {
+        #[cfg(feature = "serde-client")]
+        Entry::SerdeToWriter => guarded(|| serde_lexpr::to_vec(&Ser(v)).ok()).ok().flatten(),
+        #[cfg(feature = "serde-client")]
+        Entry::SerdeToWriterCustom => guarded(|| serde_lexpr::to_vec_custom(&Ser(v), popts).ok()).ok().flatten(),
+        #[cfg(not(feature = "serde-client"))]
+        Entry::SerdeToWriter => Some(reference(v, true, popts)),
+        _ => Some(reference(v, entry.default_formatter(), popts)),
     }
 }
 
@@ -175,6 +254,15 @@ fn run_single(entry: &Entry, value: &Value, popts: PrintOptions, plan: &WritePla
                     Entry::ToWriterCustom => lexpr::to_writer_custom(w, value, popts),
                     Entry::PrinterNew => Printer::new(w).print(value),
                     Entry::PrinterWithOptions => Printer::with_options(w, popts).print(value),
+                    #[cfg(feature = "serde-client")]
+                    Entry::SerdeToWriter => serde_lexpr::to_writer(w, &Ser(value)).map_err(io::Error::from),
+                    #[cfg(feature = "serde-client")]
+                    Entry::SerdeToWriterCustom => serde_lexpr::to_writer_custom(w, &Ser(value), popts).map_err(io::Error::from),
+                    // a build without the Serde front end runs the plain entry points
+                    #[cfg(not(feature = "serde-client"))]
+                    Entry::SerdeToWriter => lexpr::to_writer(w, value),
+                    #[cfg(not(feature = "serde-client"))]
+                    Entry::SerdeToWriterCustom => lexpr::to_writer_custom(w, value, popts),
                     _ => unreachable!(),
                 }
             }
@@ -553,8 +641,12 @@ pub fn check_sink_case(case: &SinkCase, mon: &mut Mon) {
             let Some(v) = case.values.first() else { return };
             let value = v.to_value();
             let popts = opts::print_options(case.popts);
-            let t = reference(&value, entry.default_formatter(), popts);
+            let Some(t) = reference_for(entry, &value, popts) else {
+                mon.count("c07.serde_unrepresentable");
+                return;
+            };
             let run = run_single(entry, &value, popts, &case.plan, t.len(), mon.keep_log);
+            mon.count_dyn(format!("c07.entry.{}", entry.name()));
             if mon.keep_log {
                 for l in &run.calls_log {
                     mon.log.push(format!("    {}", l));
@@ -622,6 +714,11 @@ pub fn candidates(c: &SinkCase) -> Vec<SinkCase> {
     if !c.plan.accepts.is_empty() && c.plan.accepts != vec![1] {
         out.push(SinkCase { plan: WritePlan { accepts: vec![1], ..c.plan.clone() }, ..c.clone() });
     }
+    if c.entry.is_serde() {
+        // the plain entry point behind the front end
+        let plain = if c.entry == Entry::SerdeToWriter { Entry::ToWriter } else { Entry::ToWriterCustom };
+        out.push(SinkCase { entry: plain, ..c.clone() });
+    }
     if let Entry::History { custom, ops } = &c.entry {
         for i in 0..ops.len() {
             let mut o = ops.clone();
@@ -640,7 +737,7 @@ pub fn candidates(c: &SinkCase) -> Vec<SinkCase> {
             out.push(d.clone());
             // also try with fault offsets pulled down to the new text length
             if let Some(f) = d.plan.faults.first().cloned() {
-                let t = reference(&d.values[0].to_value(), d.entry.default_formatter(), opts::print_options(d.popts));
+                let t = reference_for(&d.entry, &d.values[0].to_value(), opts::print_options(d.popts)).unwrap_or_default();
                 for at in [f.at.min(t.len()), t.len() / 2, 0, 1, t.len().saturating_sub(1)] {
                     if at != f.at {
                         let mut e = d.clone();
@@ -714,7 +811,7 @@ pub fn c07_run(seed: u64, i: u64, mon: &mut Mon, found: &mut Vec<Found>) {
     let popts = opts::draw_print(&mut rng);
     let mask = ValMask::draw(&mut rng, opts::print_fields(popts).chr == 1);
     let depth = if rng.chance(1, 10) { 4 } else { rng.below(4) as u32 };
-    let entry_pick = rng.below(20);
+    let entry_pick = rng.below(22);
     let run_case = |case: SinkCase, mon: &mut Mon, found: &mut Vec<Found>| {
         mon.before_case(|| serde_json::to_string(&AnyCase::Sink(case.clone())).unwrap_or_default());
         let before = mon.violations.len();
@@ -797,7 +894,9 @@ pub fn c07_run(seed: u64, i: u64, mon: &mut Mon, found: &mut Vec<Found>) {
         9..=13 => Entry::ToWriterCustom,
         14..=15 => Entry::PrinterNew,
         16..=17 => Entry::PrinterWithOptions,
-        _ => Entry::Display,
+        18..=19 => Entry::Display,
+        20 => Entry::SerdeToWriter,
+        _ => Entry::SerdeToWriterCustom,
     };
     let base_plan = draw_write_base(&mut rng);
     let base = SinkCase { popts, values: vec![value], entry: entry.clone(), plan: base_plan.clone(), fmt: None };
@@ -806,7 +905,11 @@ pub fn c07_run(seed: u64, i: u64, mon: &mut Mon, found: &mut Vec<Found>) {
     }
     run_case(printer_side_case(popts, base.values.clone()), mon, found);
     let value0 = base.values[0].to_value();
-    let t = reference(&value0, entry.default_formatter(), opts::print_options(popts));
+    let Some(t) = reference_for(&entry, &value0, opts::print_options(popts)) else {
+        mon.count("c07.serde_unrepresentable");
+        mon.count("scenarios");
+        return;
+    };
     let len = t.len();
     let offsets: Vec<usize> = if len <= 2048 { (0..=len).collect() } else { (0..64).map(|_| rng.usize_below(len + 1)).collect() };
     if entry == Entry::Display {
